@@ -207,6 +207,8 @@ class XClient(Client):
             return False
         if name in ("ack", "ackn"):
             return self.h2.unacked.get(args[0], 0) > 0
+        if name == "winup" and not self.h2.started:
+            return False  # no frame leaves a client before its connection preface
         if name == "winup" and args[0]:
             st = self.h2.conn.streams.get(args[0])
             return st is not None and not st.closed
